@@ -61,6 +61,11 @@ example : (resolved.filter (fun r => (homeOf r.2.1).isSome)).length = 147 := by 
 theorem observed_names_exported :
     ∀ n ∈ ["open_raw", "concatenate_raw", "concatenate"] ++ parseNames ++ mdcNames ++ emcNames ++ trackNames, (definedAt "pybes3" n).isSome = true := by decide +kernel
 
+/-- the pinned families are exactly what the sub-packages export: nothing exported from `detectors.geometry` / `tracks` escapes the rule above -/
+theorem families_are_the_exports :
+    all_pybes3_detectors_geometry = emcNames ++ mdcNames ∧ all_pybes3_tracks = trackNames ∧
+    (∀ n ∈ all_pybes3_besio, n ∈ ["open", "concatenate", "open_raw", "concatenate_raw"]) := by decide +kernel
+
 /-- `__all__` of the top-level package lists each name once, and exactly the sub-packages' lists plus the package's own names -/
 theorem top_all_is_union :
     all_pybes3.Nodup ∧
